@@ -92,6 +92,7 @@ def scn_metrics(ctx):
             sched.vsleep_until(sched.now() + 2)
     else:
         ex.shutdown(wait=True)
+        ex.shutdown(wait=True)  # a repeated shutdown changes no metric
         sched.vsleep_until(sched.now() + 1)
     G = P.get
     ctx.check("gauges-never-negative", not P.NEGATIVE, P.NEGATIVE[:3])
